@@ -6,6 +6,10 @@
 (* sequence number.                                                        *)
 (*   C08 NoOverlap, Returned, CleanTable, Afresh, NeverInvented            *)
 (*   C09 NoStaleInstall, WriteWins                                         *)
+(*   C11 (asynchronous executor): exactly one result per Refresh call, a    *)
+(*       failed reload leaves the entry, a not-found reload removes it, a   *)
+(*       successful one replaces it; no reader sees a value before its      *)
+(*       loader returned                                                    *)
 (***************************************************************************)
 EXTENDS Integers, Sequences, FiniteSets, TLC, Json, IOUtils
 
@@ -59,14 +63,30 @@ Check(r, idx) ==
                          IN IF c = {} THEN 1000000 ELSE (CHOOSE n \in c : \A m \in c : n.seq <= m.seq).seq
         enterSeq(x) == (CHOOSE en \in enters : en.run = x.run /\ en.k = x.k).seq
         \* an explicit write whose whole call lies between the load's start and its installation
-        stale == {x \in finRuns(1) : \E w \in wcalls : /\ w.k = 1 /\ w.op \in {"set", "compute", "invalidate"} /\ w.seq > enterSeq(x)
-                                                       /\ \E y \in wrets : y.g = w.g /\ y.seq < installSeq(x)}
+        \* (an InvalidateAll counts when it really removed the key: an Invalidation event of the key inside the call)
+        stale == {x \in finRuns(1) : \E w \in wcalls : /\ w.k = 1 /\ w.seq > enterSeq(x)
+                                                       /\ \E y \in wrets : /\ y.g = w.g /\ y.seq < installSeq(x)
+                                                                             /\ \/ w.op \in {"set", "compute", "invalidate"}
+                                                                                \/ /\ w.op = "invalidateAll"
+                                                                                   /\ \E a \in aevs : a.k = 1 /\ a.err = "Invalidation" /\ a.seq > w.seq /\ a.seq < y.seq}
         \* the last explicit set/compute that returned after every load was installed must be what the cache holds
         lastW == {w \in wcalls : w.op \in {"set", "compute"} /\ \A o \in ev : o.seq <= w.seq \/ o.g = w.g \/ o.t = "ret"}
+        \* C11: scenarios without writers and without automatic removals, entry preloaded with 50
+        runs1 == {x \in exits : x.k = 1}
+        quiet == wcalls = {} /\ r.sc.preload = 1 /\ r.sc.refresh = 1 /\ runs1 # {} /\ r.diag = "" /\ pendingCalls = {}
+        timeouts == {x \in rets : x.err = "timeout"}
+        refBad == {x \in rets : x.op = "Refresh" /\ x.err = "" /\ x.v \notin loadedVals(1)}
+        future == {x \in rets : x.op \in {"Get", "BulkGet"} /\ x.err = "" /\ \E y \in exits : y.k = x.k /\ y.v = x.v /\ y.err = "" /\ y.seq > x.seq}
     IN
     (IF r.diag # "" /\ pendingCalls # {} THEN <<F(idx, "C08.hang", <<r.diag, {c.g : c \in pendingCalls}>>)>> ELSE <<>>)
     \o (IF r.hung = 1 THEN <<F(idx, "C08.later_get_hangs", r.inflight)>> ELSE <<>>)
     \o (IF \E x \in rets : x.err = "timeout" THEN <<F(idx, "C08.refresh_result_missing", {x \in rets : x.err = "timeout"})>> ELSE <<>>)
+    \o (IF timeouts # {} THEN <<F(idx, "C11.refresh_result_missing", timeouts)>> ELSE <<>>)
+    \o (IF refBad # {} THEN <<F(idx, "C11.refresh_result_not_loaded", refBad)>> ELSE <<>>)
+    \o (IF future # {} THEN <<F(idx, "C11.read_before_loader_returned", future)>> ELSE <<>>)
+    \o (IF quiet /\ (\A x \in runs1 : x.err = "err") /\ aevs = {} /\ fin(1) # {50} THEN <<F(idx, "C11.failed_reload_changed_entry", r.final)>> ELSE <<>>)
+    \o (IF quiet /\ (\A x \in runs1 : x.err = "nf") /\ fin(1) # {} THEN <<F(idx, "C11.notfound_reload_kept_entry", r.final)>> ELSE <<>>)
+    \o (IF quiet /\ (\A x \in runs1 : x.err = "") /\ fin(1) \cap {x.v : x \in runs1} = {} THEN <<F(idx, "C11.successful_reload_not_installed", r.final)>> ELSE <<>>)
     \o (IF overlaps # {} THEN <<F(idx, "C08.overlap", {<<p[1].run, p[2].run, p[1].k>> : p \in overlaps})>> ELSE <<>>)
     \o (IF r.inflight # 0 THEN <<F(idx, "C08.inflight_left", r.inflight)>> ELSE <<>>)
     \o (IF r.inflight = 0 /\ r.hung = 0 /\ r.afresh # 1 THEN <<F(idx, "C08.not_afresh", r.afresh)>> ELSE <<>>)
